@@ -1,6 +1,8 @@
 import PeliteModel.Driver.Image
 import PeliteModel.Model.Typed
-/-! Driver handlers for the typed read family (C05). -/
+import PeliteModel.Model.PeChecked
+/-! Driver handlers for the typed read family (C05); they run the CHECKED variants
+(`Model/PeChecked.lean`), proved equal to the unchecked model in `Thm/C02Arith.lean`. -/
 namespace Pelite.Driver
 open Pelite.Proto Pelite.Pe
 
@@ -28,14 +30,14 @@ def typedOp (img : Option Img) (fam : String) (a : List String) : Option String 
   let mk (x : String) : Addr := if isVa then .va (num x) else .rva (num x)
   match base, a with
   | "", [k, t, x] => some (withView img k fun v =>
-      match v.derva (mk x) (tySize t) (tyAlign t) with
+      match v.dervaChk (mk x) (tySize t) (tyAlign t) with
       | .ok r => if isStructTy t then s!"ok {ref r}" else s!"ok {ref r} val={leN v.b r.off (tySize t)}"
       | o => refOut o)
-  | "_copy", [k, t, x] => some (withView img k fun v => natOut (v.dervaCopy (mk x) (tySize t)))
-  | "_into", [k, len, x] => some (withView img k fun v => bytesOut (v.dervaInto (mk x) (num len)))
-  | "_slice", [k, t, x, len] => some (withView img k fun v => refOut (v.dervaSlice (mk x) (tySize t) (tyAlign t) (num len)))
-  | "_slice_s", [k, t, x, s] => some (withView img k fun v => refOut (v.dervaSliceS (mk x) (tySize t) (tySize t) (num s)))
-  | "_cstr", [k, x] => some (withView img k fun v => refOut (v.dervaCStr (mk x)))
+  | "_copy", [k, t, x] => some (withView img k fun v => natOut (v.dervaCopyChk (mk x) (tySize t)))
+  | "_into", [k, len, x] => some (withView img k fun v => bytesOut (v.dervaIntoChk (mk x) (num len)))
+  | "_slice", [k, t, x, len] => some (withView img k fun v => refOut (v.dervaSliceChk (mk x) (tySize t) (tyAlign t) (num len)))
+  | "_slice_s", [k, t, x, s] => some (withView img k fun v => refOut (v.dervaSliceSChk (mk x) (tySize t) (tySize t) (num s)))
+  | "_cstr", [k, x] => some (withView img k fun v => refOut (v.dervaCStrChk (mk x)))
   | _, _ => none
 
 def dispatchTyped : Handler := fun st fam a =>
